@@ -10,11 +10,14 @@ import (
 	"encoding/json"
 	"errors"
 	"fmt"
+	"html"
 	"math/rand/v2"
 	"net/http"
 	"net/http/httptest"
 	"net/netip"
 	"path/filepath"
+	"regexp"
+	"strconv"
 	"strings"
 
 	"github.com/tailscale/setec/server"
@@ -41,7 +44,8 @@ type whoisSpec struct {
 }
 
 type reqSpec struct {
-	Endpoint string    `json:"endpoint"` // list get info put activate delete delete-version
+	Endpoint string    `json:"endpoint"`       // list get info put activate delete delete-version | html (the listing page)
+	Path     string    `json:"path,omitempty"` // html: the path asked for ("/" and every path no API route matches)
 	Method   string    `json:"method"`
 	CType    string    `json:"ctype"` // "" = absent
 	Hdr      string    `json:"hdr"`   // "" = absent
@@ -117,7 +121,9 @@ func ruleJSON(r c07Rule) tailcfg.RawMessage {
 }
 
 // whoisNodeName is the name the tailnet reports for the node of a whoisSpec (recorded as the principal's hostname).
-func whoisNodeName(w whoisSpec) string { return fmt.Sprintf("node-l%d-t%d.example.ts.net.", w.Login, w.Tags) }
+func whoisNodeName(w whoisSpec) string {
+	return fmt.Sprintf("node-l%d-t%d.example.ts.net.", w.Login, w.Tags)
+}
 
 // mkWhoIsFor answers a WhoIs question about addr: the scripted answer belongs to the request's own source
 // address (ip:port) only; asked about anything else (the bare IP, another port) the tailnet knows a different
@@ -154,11 +160,43 @@ func mkWhoIs(w whoisSpec) (*apitype.WhoIsResponse, error) {
 
 func endpointPath(e string) string { return "/api/" + e }
 
+var htmlRow = regexp.MustCompile(`(?s)<tr>\s*<td>(.*?)</td>\s*<td>(.*?)</td>\s*</tr>`)
+
+// parseHTMLList reads the listing page back into a list result: one row per secret, the versions in
+// order, the active one in bold.
+func parseHTMLList(body []byte) (*resObs, bool) {
+	if !bytes.Contains(body, []byte("<h1>Secrets List</h1>")) {
+		return nil, false
+	}
+	r := &resObs{Class: "list"}
+	for _, m := range htmlRow.FindAllSubmatch(body, -1) {
+		d := secDump{Name: []byte(html.UnescapeString(string(m[1])))}
+		for _, tok := range strings.Split(string(m[2]), ",") {
+			tok = strings.TrimSpace(tok)
+			if tok == "" {
+				continue
+			}
+			bold := strings.HasPrefix(tok, "<b>") && strings.HasSuffix(tok, "</b>")
+			tok = strings.TrimSuffix(strings.TrimPrefix(tok, "<b>"), "</b>")
+			v, err := strconv.ParseUint(strings.TrimSpace(tok), 10, 64)
+			if err != nil {
+				return nil, false
+			}
+			d.Vers = append(d.Vers, verVal{Ver: v})
+			if bold {
+				d.Active = v
+			}
+		}
+		r.List = append(r.List, d)
+	}
+	return r, true
+}
+
 func reqBody(r reqSpec) []byte {
 	var obj map[string]any
 	name := string(r.Name)
 	switch r.Endpoint {
-	case "list":
+	case "list", "html":
 		obj = map[string]any{}
 	case "get":
 		obj = map[string]any{"Name": name, "Version": r.Ver, "UpdateIfChanged": r.Upd}
@@ -253,7 +291,7 @@ func coqOptN(k int, off int) string {
 }
 
 func coqReq(r reqSpec) string {
-	ep := map[string]string{"list": "EList", "get": "EGet", "info": "EInfo", "put": "EPut", "activate": "EActivate", "delete": "EDelete", "delete-version": "EDeleteVersion"}[r.Endpoint]
+	ep := map[string]string{"html": "EHtml", "list": "EList", "get": "EGet", "info": "EInfo", "put": "EPut", "activate": "EActivate", "delete": "EDelete", "delete-version": "EDeleteVersion"}[r.Endpoint]
 	m := map[string]string{"POST": "MPost", "GET": "MGet", "PUT": "MPut", "DELETE": "MDelete", "HEAD": "MHead"}[r.Method]
 	if m == "" {
 		m = "MOtherMeth"
@@ -274,7 +312,7 @@ func coqReq(r reqSpec) string {
 		n := coqBytes(r.Name)
 		var q string
 		switch r.Endpoint {
-		case "list":
+		case "list", "html":
 			q = "QList"
 		case "get":
 			q = fmt.Sprintf("(QGet %s %d %s)", n, r.Ver, coqBool(r.Upd))
@@ -327,6 +365,8 @@ func decodeResult(endpoint string, body []byte) (*resObs, bool) {
 		return d.Decode(v) == nil
 	}
 	switch endpoint {
+	case "html":
+		return parseHTMLList(body)
 	case "list":
 		var infos []*api.SecretInfo
 		if !dec(&infos) {
@@ -410,7 +450,11 @@ func (hs *httpSession) do(r reqSpec) httpObs {
 	env.sink.failNext = r.Audit
 	env.sink.lastHash = fileHash(env.path)
 	env.sink.mu.Unlock()
-	req := httptest.NewRequest(r.Method, endpointPath(r.Endpoint), bytes.NewReader(reqBody(r)))
+	target := endpointPath(r.Endpoint)
+	if r.Endpoint == "html" {
+		target = r.Path
+	}
+	req := httptest.NewRequest(r.Method, target, bytes.NewReader(reqBody(r)))
 	if r.CType != "" {
 		req.Header.Set("Content-Type", r.CType)
 	}
@@ -544,6 +588,13 @@ func genReq(r *rand.Rand, last []secDump, g *genState) reqSpec {
 	eps := []string{"list", "get", "info", "put", "activate", "delete", "delete-version"}
 	rq := reqSpec{Endpoint: eps[r.IntN(len(eps))], Method: "POST", CType: "application/json", Hdr: "setec", Addr: "100.64.0.7:4242", BodyKind: "valid"}
 	rq.WhoIs = whoisSpec{Tags: 0, Login: 1 + r.IntN(3), Bare: capSpec{Kind: "rules", Rules: superRules()}, HTTPS: capSpec{Kind: "absent"}}
+	if r.IntN(9) == 0 { // the listing page: a GET from a browser, on "/" or on any path no API route matches
+		rq.Endpoint, rq.Method = "html", "GET"
+		rq.Path = []string{"/", "/", "/index.html", "/api/nope", "/api/list/", "/api"}[r.IntN(6)]
+		if r.IntN(2) == 0 {
+			rq.CType, rq.Hdr = "", ""
+		}
+	}
 	persona := -1
 	if r.IntN(3) == 0 { // one of the session's nodes; the policy that grants it rights is edited from time to time
 		persona = r.IntN(len(g.personas))
@@ -556,7 +607,7 @@ func genReq(r *rand.Rand, last []secDump, g *genState) reqSpec {
 	for devs := []int{0, 1, 1, 1, 2, 3}[r.IntN(6)]; devs > 0; devs-- {
 		switch r.IntN(6) {
 		case 0:
-			rq.Method = []string{"GET", "PUT", "DELETE", "HEAD", "PATCH", "post"}[r.IntN(6)]
+			rq.Method = []string{"GET", "PUT", "DELETE", "HEAD", "PATCH", "post", "POST"}[r.IntN(7)]
 		case 1:
 			rq.CType = []string{"application/json; charset=utf-8", "text/plain", "", "application/JSON", "application/x-www-form-urlencoded"}[r.IntN(5)]
 		case 2:
